@@ -777,6 +777,8 @@ type flameSess struct {
 	pending []flamego.Handler
 	events  []string
 	routes  int
+	// `FR` was given: the application's ReturnHandler is the recording one
+	recording bool
 }
 
 func execInjectFlame(args []string, lines [][]string) []string {
@@ -866,6 +868,9 @@ func (s *flameSess) handler(l []string) flamego.Handler {
 			return status, body
 		}
 	case len(l) == 4 && l[0] == "r":
+		if !s.recording {
+			return nil // value-returning handlers only behind the recording ReturnHandler (`FR`): bad-op otherwise
+		}
 		return s.resultHandler(l[1], atoi(l[2]), atoi(l[3]))
 	case len(l) == 2 && l[0] == "l":
 		rec := generic(l[1])
@@ -963,6 +968,7 @@ func (s *flameSess) op(l []string) (out string) {
 		return "ok"
 	case len(l) == 1 && l[0] == "FR":
 		s.f.Map(flamego.ReturnHandler(s.recordResults))
+		s.recording = true
 		return "ok"
 	case len(l) == 2 && l[0] == "FV":
 		v := s.f.Value(injTypes[atoi(l[1])])
